@@ -79,7 +79,7 @@ CHECKS = {
     ),
     "C16": dict(
         category="fault_enumeration",
-        text="The logger, trajectory and restart observers of real simulations write through a proxy around real files ('a' and 'w' mode) that logs every write/flush/seek/truncate/close and records what an independent reader sees on disk after each one. Every grow/shrink history of a GrandCanonical run with explorer-chosen verdicts (depth 3 quick / 4 thorough) plus Canonical and ForceBias runs are executed; at every crash point (every operation, plus line-granular torn prefixes of the bytes it made visible) completed log lines/frames must survive as a prefix and the restart file must load to a saved state; after every completed observer call the log must hold header + one flushed line per call, the trajectory one parseable extended-XYZ frame per call with earlier bytes untouched, the restart file exactly one JSON document of the latest state.",
+        text="The logger, trajectory and restart observers of real simulations write through a proxy around real files ('a' and 'w' mode) that logs every write/flush/seek/truncate/close and records what an independent reader sees on disk after each one. Every grow/shrink history of a GrandCanonical run with explorer-chosen verdicts (depth 3 quick / 4 thorough) plus Canonical and ForceBias runs are executed; at every crash point (every operation, plus line-granular torn prefixes of the bytes it made visible) completed log lines/frames must survive as a prefix and the restart file must load to a saved state; after every completed observer call the log must hold header + one flushed line per call, the trajectory one parseable extended-XYZ frame per call with earlier bytes untouched, the restart file exactly one JSON document of the latest state. A field function failing during logger call k (k = 0..3, three field positions, both modes, Canonical and ForceBias) with the run started again on the same object must leave exactly one header and one complete row per completed call.",
         design_ref="4-C16",
         note="Crash = process death between file-object operations (no fsync/power-loss model). ForceBias runs without a restart file here (C07 covers that it cannot be written).",
         technique="exhaustive crash-point enumeration over every file operation of every enumerated history, on the implementation's real write path",
@@ -100,7 +100,7 @@ CHECKS = {
     ),
     "C06": dict(
         category="exploration",
-        text="Configuration alphabet enumerated completely: 7 drivers (Canonical, HamiltonianCanonical, Isobaric, Isotension, GrandCanonical, ForceBias, AdaptiveForceBias) x 12 move tables x seeds {0,1,2,42,2^32-1,2^32,2^63,2^64-1,f(VERIF_SEED)} x global-generator states {untouched, reseeded differently before each run, consumed between runs}: two simulations in one process, 5 steps, compared bitwise after every step (atoms, move history) and in log text; the seed used must be the seed given; different seeds must give different trajectories; draws from numpy's/Python's global generators made from quansino code while a simulation runs are trapped with their call site.",
+        text="Configuration alphabet enumerated completely: 7 drivers (Canonical, HamiltonianCanonical, Isobaric, Isotension, GrandCanonical, ForceBias, AdaptiveForceBias) x 12 move tables x seeds {0,1,2,42,2^32-1,2^32,2^63,2^64-1,f(VERIF_SEED)} x global-generator states {untouched, reseeded differently before each run, consumed between runs}: two simulations in one process, 5 steps, compared bitwise after every step (atoms, move history) and in log text; the seed used must be the seed given; different seeds must give different trajectories; draws from numpy's/Python's global generators made from quansino code while a simulation runs are trapped with their call site; two replicas rebuilt from one to_dict() dictionary, the second after the original simulation has moved on, must agree bitwise.",
         design_ref="4-C06",
         note="PCG64's quality is trusted. Names bound at import time (from numpy.random import ...) escape the monitor and are covered by the run-twice comparison only.",
         technique="exhaustive enumeration of a finite alphabet (configuration x seed incl. numpy scalars x process state: global generators, re-tuned earlier simulation, shared criteria objects, PYTHONHASHSEED of fresh interpreters) on the implementation, run-twice bitwise differential plus global-draw monitor",
